@@ -399,7 +399,7 @@ func (t *Transport) Write(b []byte) error {
 			go func(q chan [][]byte, d time.Duration) {
 				for atoms := range q {
 					time.Sleep(d)
-					t.Inject(atoms)
+					t.inject(atoms, false)
 				}
 			}(t.delayQ, t.EmitDelay)
 		}
@@ -427,14 +427,19 @@ func (t *Transport) Snapshot() (writes [][]byte, delivered int, pending int) {
 }
 
 // Inject appends device-originated atoms (unsolicited output).
-func (t *Transport) Inject(atoms [][]byte) {
+func (t *Transport) Inject(atoms [][]byte) { t.inject(atoms, true) }
+
+// inject: logged = false for the delayed delivery of an emission that the write event already carries.
+func (t *Transport) inject(atoms [][]byte, logged bool) {
 	t.mu.Lock()
 	defer t.mu.Unlock()
 	t.pending = append(t.pending, atoms...)
-	var all []byte
-	for _, a := range atoms {
-		all = append(all, a...)
+	if logged {
+		var all []byte
+		for _, a := range atoms {
+			all = append(all, a...)
+		}
+		t.Events = append(t.Events, Event{Kind: 'J', W: all})
 	}
-	t.Events = append(t.Events, Event{Kind: 'J', W: all})
 	t.cond.Broadcast()
 }
